@@ -250,6 +250,9 @@ def generate(contract, ov):
     """Symbolically execute the real function; -> (cx, obligations, meta)."""
     if getattr(contract, "lang", "py") == "c":
         return generate_c(contract, ov)
+    if getattr(contract, "lang", "py") == "data":
+        # a lemma over data read from the real sources on this run (class attributes, enum values, C tables)
+        return contract.data_obligations(ov)
     fn, seg, sha, owner = source.get_function(contract.path, contract.qualname)
     from .pyvc import values as _values
     _values.reset_defs()
